@@ -218,6 +218,36 @@ theorem loop_time (script : List (Cb α)) :
             exact ⟨ih1, ih2⟩
     · rw [loop_dead _ _ _ _ _ _ _ _ _ _ (by simpa using hl)]; simp
 
+theorem loop_timechain (script : List (Cb α)) :
+    ∀ (b : BState α) (p : Nat) (tlast vo rs : α),
+      TimeChain tlast ((loop cutoff cap0 phases solveI script b p tlast vo rs).rows.map Row.t)
+        ((loop cutoff cap0 phases solveI script b p tlast vo rs).calls.map (·.1)) := by
+  induction script with
+  | nil =>
+    intro b p tlast vo rs
+    by_cases hl : live cutoff b = true
+    · cases hs : solveI b.volt b.rs ((phaseList phases).getD p "") with
+      | error e => rw [loop_err _ _ _ _ _ _ _ _ _ _ hl e hs]; simp [TimeChain]
+      | ok i0 => rw [loop_nil _ _ _ _ _ _ _ _ _ hl i0 hs]; simp [TimeChain]
+    · rw [loop_dead _ _ _ _ _ _ _ _ _ _ (by simpa using hl)]; simp [TimeChain]
+  | cons c rest ih =>
+    intro b p tlast vo rs
+    by_cases hl : live cutoff b = true
+    · cases hs : solveI b.volt b.rs ((phaseList phases).getD p "") with
+      | error e => rw [loop_err _ _ _ _ _ _ _ _ _ _ hl e hs]; simp [TimeChain]
+      | ok i0 =>
+        cases c with
+        | raise e => rw [loop_raise _ _ _ _ _ _ _ _ _ _ _ hl i0 hs]; simp [TimeChain]
+        | ret b' =>
+          rw [loop_ret _ _ _ _ _ _ _ _ _ _ _ hl i0 hs]
+          by_cases hl' : live cutoff b' = true
+          · simp only [hl', if_true, List.cons_append, List.nil_append, List.map_cons, TimeChain, true_and]
+            exact ih b' _ _ b.volt b.rs
+          · have hl'' : live cutoff b' = false := by simpa using hl'
+            simp only [hl'', Bool.false_eq_true, if_false, List.nil_append]
+            rw [loop_dead _ _ _ _ _ _ _ _ _ _ hl'']
+            simp [TimeChain]
+    · rw [loop_dead _ _ _ _ _ _ _ _ _ _ (by simpa using hl)]; simp [TimeChain]
 end
 
 /-! ### phases are a dict: the lookup by key is positional -/
